@@ -474,6 +474,80 @@ impl Scenario for GroupScen {
         }
     }
 
+    /// Small scope: admin p0, members p0:1 and p1 (2 or 0), p2 the address that joins, p3/p4 hook addresses.
+    /// Variant 0: p1 has weight 2, hook p3 is registered, and the world has left the instantiation block
+    /// (so the first change of a member is recorded against an instantiation-time checkpoint of an earlier block).
+    /// Variant 1: p1 is a weight-0 member, no hook, and the sequences start in the instantiation block itself
+    /// (smaller alphabet: what differs from variant 0).
+    fn small_scope(&mut self, variant: u64) -> Option<SmallScope> {
+        if self.wide || variant > 1 {
+            return None;
+        }
+        let (p0, p1, p2, p3, p4) =
+            (self.pool[0].clone(), self.pool[1].clone(), self.pool[2].clone(), self.pool[3].clone(), self.pool[4].clone());
+        let h = self.env.block.height;
+        let t = self.env.block.time.nanos();
+        let env = |d: u64| format!("env height={} time={}", h + d, t + d * 5_000_000_000);
+        if variant == 0 {
+            let prefix =
+                vec![format!("inst admin=+{p0} members=+{p0}:1,+{p1}:2"), format!("exec {p0} add_hook addr=+{p3}"), env(1)];
+            let al = vec![
+                // adds: new member, re-weight to 0, re-weight to the same value
+                format!("exec {p0} update_members remove= add=+{p2}:1"),
+                format!("exec {p0} update_members remove= add=+{p1}:0"),
+                format!("exec {p0} update_members remove= add=+{p1}:2"),
+                // removes: member, non-member
+                format!("exec {p0} update_members remove=+{p1} add="),
+                format!("exec {p0} update_members remove=+{p2} add="),
+                // the same address added and removed: member, non-member
+                format!("exec {p0} update_members remove=+{p1} add=+{p1}:3"),
+                format!("exec {p0} update_members remove=+{p2} add=+{p2}:2"),
+                // duplicate adds
+                format!("exec {p0} update_members remove= add=+{p2}:1,+{p2}:2"),
+                // by p1: not the admin unless `update_admin admin=+p1` came first
+                format!("exec {p1} update_members remove=+{p0} add=+{p1}:5"),
+                format!("exec {p0} add_hook addr=+{p4}"),
+                format!("exec {p0} add_hook addr=+{p3}"),
+                format!("exec {p0} remove_hook addr=+{p3}"),
+                format!("exec {p0} remove_hook addr=+{p4}"),
+                format!("exec {p1} add_hook addr=+{p4}"),
+                format!("exec {p0} update_admin admin=+{p1}"),
+                format!("exec {p0} update_admin admin=-"),
+                format!("exec {p1} update_admin admin=+{p0}"),
+                env(2),
+                format!("query member addr=+{p1} at={}", h + 1),
+                format!("query member addr=+{p2} at={}", h + 2),
+                format!("query total_weight at={}", h + 2),
+                format!("query list_members after=+{p0} limit=1"),
+            ];
+            Some(SmallScope { prefix, alphabet: al })
+        } else {
+            let prefix = vec![format!("inst admin=+{p0} members=+{p0}:1,+{p1}:0")];
+            let al = vec![
+                format!("exec {p0} update_members remove= add=+{p2}:0"),
+                format!("exec {p0} update_members remove= add=+{p1}:0"),
+                format!("exec {p0} update_members remove= add=+{p1}:1"),
+                format!("exec {p0} update_members remove=+{p1} add="),
+                format!("exec {p0} update_members remove=+{p0},+{p0} add="),
+                format!("exec {p0} update_members remove=+{p1} add=+{p1}:0"),
+                format!("exec {p0} update_members remove=+{p2} add=+{p2}:2"),
+                format!("exec {p0} update_members remove=-{INVALID_ADDR} add=+{p2}:1"),
+                format!("exec {p2} update_members remove= add=+{p2}:1"),
+                format!("exec {p0} add_hook addr=+{p3}"),
+                format!("exec {p0} remove_hook addr=+{p3}"),
+                format!("exec {p2} remove_hook addr=+{p3}"),
+                format!("exec {p0} update_admin admin=+{p2}"),
+                format!("exec {p0} update_admin admin=-"),
+                env(1),
+                format!("query member addr=+{p1} at={h}"),
+                format!("query member addr=+{p1} at={}", h + 1),
+                format!("query total_weight at={}", h + 1),
+                format!("query list_members after=- limit=-"),
+            ];
+            Some(SmallScope { prefix, alphabet: al })
+        }
+    }
+
     fn apply(&mut self, op: &str) -> Vec<String> {
         let a = Args::parse(op);
         let kind = a.pos.first().map(|s| s.as_str()).unwrap_or("");
